@@ -65,8 +65,8 @@ struct Options {
 class Ctx {
  public:
   // --- choices -------------------------------------------------------------------------------
-  int pick(const char *label, int n);                                   // all alternatives free
-  int pick_costed(const char *label, int n, const uint8_t *kinds);      // kinds[i] = cost of alt i
+  int pick(const char *label, int n);   // data choice, all alternatives free; folded into the observation log
+  int pick_costed(const char *label, int n, const uint8_t *kinds);      // kinds[i] = cost of alt i; NOT folded into obs (scheduler-level)
   bool deviate(const char *label, Kind k) { uint8_t ks[2] = {FREE, (uint8_t)k}; return pick_costed(label, 2, ks) == 1; }
   bool flip(const char *label) { return pick(label, 2) == 1; }
   template <class T> const T &pick_from(const char *label, const std::vector<T> &v) { return v[pick(label, (int)v.size())]; }
@@ -80,6 +80,9 @@ class Ctx {
   bool state(const H128 &h);        // count a visited state; true if new
   bool state(const std::string &canon) { H128 h; h.add_str(canon); return state(h); }
   void prune_point(const H128 &h);  // throws Pruned if this state was visited with >= remaining budget
+  bool covered(const H128 &h);      // non-throwing form of prune_point (any thread)
+  [[noreturn]] void exit_pruned();  // fork-per-execution harnesses only: end this execution now
+  [[noreturn]] void exit_fail(const std::string &sig, const std::string &msg);  // ditto, any thread
   void outcome(const std::string &canon);  // distinct complete-execution outcomes
   void sample(const std::string &s);       // candidate sample for the evidence file
   void obs(uint64_t v) { obs_.add(v); }    // observation log hash
